@@ -327,7 +327,7 @@ func c18RunAuto(m map[string]string, ops []string) string {
 		}
 		if first {
 			first = false
-			c18Until(c18Settle, func() bool { return len(blocked()) == 0 })
+			c18Wait(func() bool { return len(blocked()) == 0 })
 			atc = c18Ids(blocked())
 		}
 	}
@@ -367,7 +367,7 @@ func c18RunAuto(m map[string]string, ops []string) string {
 				x.done, x.res = true, res
 				mu.Unlock()
 			}()
-			c18Until(c18Settle, func() bool { mu.Lock(); d := x.done; mu.Unlock(); return d || s.seen(nbase+e) })
+			c18Wait(func() bool { mu.Lock(); d := x.done; mu.Unlock(); return d || s.seen(nbase+e) })
 		case 'r':
 			mu.Lock()
 			x := exs[e]
@@ -375,7 +375,7 @@ func c18RunAuto(m map[string]string, ops []string) string {
 			if x == nil || !s.release(nbase+e) {
 				continue
 			}
-			c18Until(c18Settle, func() bool { mu.Lock(); defer mu.Unlock(); return x.done })
+			c18Wait(func() bool { mu.Lock(); defer mu.Unlock(); return x.done })
 		case 'T':
 			mu.Lock()
 			x := exs[e]
@@ -383,7 +383,7 @@ func c18RunAuto(m map[string]string, ops []string) string {
 			if m["up"] != "udp" || x == nil || !s.releaseTC(nbase+e) {
 				continue
 			}
-			c18Until(c18Settle, func() bool { mu.Lock(); d := x.done; mu.Unlock(); return d || s.seen(nbase+e) })
+			c18Wait(func() bool { mu.Lock(); d := x.done; mu.Unlock(); return d || s.seen(nbase+e) })
 		case 'c':
 			mu.Lock()
 			x := exs[e]
@@ -394,12 +394,12 @@ func c18RunAuto(m map[string]string, ops []string) string {
 			x.cancelled = true
 			mu.Unlock()
 			x.cancel()
-			c18Until(c18Settle, func() bool { mu.Lock(); defer mu.Unlock(); return x.done })
+			c18Wait(func() bool { mu.Lock(); defer mu.Unlock(); return x.done })
 		case 'C':
 			doClose()
 		}
 	}
-	c18Until(c18Settle, func() bool { return len(blocked()) == 0 })
+	c18Wait(func() bool { return len(blocked()) == 0 })
 	leak := c18Leak(base)
 	mu.Lock()
 	var ids []int
